@@ -9,6 +9,11 @@ import DashLive.Driver.Util
   doubles `F/10⁶` and `D/10⁶` – e.g. `0.3 // 0.1 = 2` – and fed to `livePeriodsFrom`)
 * `mpsreq <durs> <R> <sn> <ts> <refTs> <start_us> <stored|-> n|t <value>` →
   `seg <src0> <tfdt> <seq>` | `404` | `500`
+* `mpstimeline <durs> <R> <ts> <refTs> <start_us> <dur_us>` → `t:d:count;…` (`-` = empty): the
+  `<S>` list of a Period (`dur_us` = the stored duration; the model presents it rounded to ms)
+
+`vodperiods` / `liveperiods` take the *stored* definitions and apply `presented` (the
+millisecond rounding of `Period.presentation_duration`) as the builders do.
 
 `<defs>` = `pid:dur_us,pid:dur_us,…` (`-` = no periods).  `<stored>` = the stored `tfdt` of
 every media segment (comma separated) or `-` when the file has no `tfdt` boxes.
@@ -32,6 +37,7 @@ def showPeriods (l : List OutPeriod) : String :=
 def vodperiods : List String → Option String
   | [defs] => do
     let ps ← parseDefs defs
+    let ps := presented ps
     some (showPeriods (vodPeriods ps) ++ "|" ++ toString (vodMediaDuration ps))
   | _ => none
 
@@ -58,6 +64,7 @@ def liveperiods : List String → Option String
     let ps ← parseDefs defs
     let E ← parseNat e
     let F ← parseNat f
+    let ps := presented ps
     if totalDuration ps = 0 then some "zerodiv" else
     let nl := floatLoopCount F (totalDuration ps)
     match livePeriodsFrom ps E F nl with
@@ -94,7 +101,26 @@ def mpsreq : List String → Option String
     some (showServed (mpsRequest d st R sn tc rq))
   | _ => none
 
+def showNodes (l : List SNode) : String :=
+  if l.isEmpty then "-" else
+  joinWith ";" (l.map fun s =>
+    (match s.start with | some t => toString t | none => "-") ++ ":" ++
+    (match s.dur with | some d => toString d | none => "-") ++ ":" ++ toString s.count)
+
+def mpstimeline : List String → Option String
+  | [durs, r, ts, refTs, us, dur] => do
+    let d ← parseNatList durs
+    let R ← parseNat r
+    let ts ← parseNat ts
+    let refTs ← parseNat refTs
+    let us ← parseNat us
+    let dur ← parseNat dur
+    if R = 0 ∨ d.isEmpty ∨ refTs = 0 then none else
+    let tc := mpsStartTc (floatStartRef us refTs) ts refTs
+    some (showNodes (periodTimeline d R ts tc (quantise dur)))
+  | _ => none
+
 def channels : List (String × (List String → Option String)) :=
-  [("vodperiods", vodperiods), ("liveperiods", liveperiods), ("mpsreq", mpsreq)]
+  [("vodperiods", vodperiods), ("liveperiods", liveperiods), ("mpsreq", mpsreq), ("mpstimeline", mpstimeline)]
 
 end DashLive.Driver.Periods
